@@ -35,12 +35,12 @@ STREAMS = {
     'hsm-enum': lambda: hsm11.HKnobs(p_enum=1.0, p_clash=0.2, p_override=0.1, p_children=0.6),
 }
 BUDGET = {   # stream -> (quick: chunks, per chunk), (thorough: chunks, per chunk)
-    'flat': ((12, 60), (48, 280)),
-    'flat-clash': ((4, 60), (16, 200)),
-    'hsm': ((12, 12), (48, 75)),
-    'hsm-custom-sep': ((4, 10), (16, 55)),
-    'hsm-remove': ((4, 12), (16, 50)),
-    'hsm-enum': ((4, 10), (16, 40)),
+    'flat': ((12, 60), (48, 190)),
+    'flat-clash': ((4, 60), (16, 130)),
+    'hsm': ((12, 12), (48, 50)),
+    'hsm-custom-sep': ((4, 10), (16, 36)),
+    'hsm-remove': ((4, 12), (16, 34)),
+    'hsm-enum': ((4, 10), (16, 28)),
 }
 
 
